@@ -428,10 +428,22 @@ impl<VM: VMBinding> GCWorkScheduler<VM> {
     }
 
     fn poll_slow(&self, worker: &GCWorker<VM>) -> PollResult<VM> {
+        #[cfg(mmtk_verif)]
+        let mut verif_fruitless = 0usize;
         loop {
             // Retry polling
             if let Some(work) = self.poll_schedulable_work(worker) {
                 return Ok(work);
+            }
+            // A worker that keeps coming back from `park_and_wait` without finding work is
+            // busy-waiting for another (already woken) worker to run, e.g. one that has
+            // designated work.  Tell the simulator so that it can let the others run.
+            #[cfg(mmtk_verif)]
+            {
+                verif_fruitless += 1;
+                if verif_fruitless >= 2 {
+                    crate::util::verif::rt::spin_hint(crate::util::verif::rt::site::SPIN_POLL_SLOW);
+                }
             }
 
             let ordinal = worker.ordinal;
